@@ -74,8 +74,13 @@ def model_runs(ctx):
     res = tlc.run("MC_Positioning")
     ctx.add_tlc(res, "writer region lookup o reader region resolution keeps the effective layout (styled spans; plain-node layouts are the known deviation)")
     ctx._cases = res.cases()
+    res2 = tlc.run("MC_Groups")
+    ctx.add_tlc(res2, "WebVTT grouping loop (state machine) = one cue per run of equal node layouts, unpositioned text taking the "
+                      "caption's layout, on every list of <= 4 node layouts over {none, a, b} x caption layout {none, a, c}")
+    ctx._groups = res2.cases()
     ctx.extra["exhaustive"] = True
-    ctx.extra["bound"] = "5^4 x 2 layout-name assignments; grid of 16 part masks x 23 alignment pairs x padding values x 4 levels"
+    ctx.extra["bound"] = ("5^4 x 2 layout-name assignments; grid of 16 part masks x 23 alignment pairs x padding values x 4 levels; "
+                          "WebVTT grouping: 120 node-layout lists x 3 caption layouts")
 
 
 def model_controls(ctx):
@@ -83,7 +88,11 @@ def model_controls(ctx):
     if r.violated != "RoundTripKeepsEffectiveLayout":
         raise tlc.MachineryError("MC_Positioning_neg not refuted")
     ctx.add_tlc(r, "negative control: with plain-node layouts in scope the design model is refuted")
-    return 1
+    r2 = tlc.run("MC_Groups", cfg="MC_Groups_neg", allow_violation=True, workers=4)
+    if r2.violated != "ModelMeetsRequirement":
+        raise tlc.MachineryError("MC_Groups_neg not refuted")
+    ctx.add_tlc(r2, "negative control: the grouping loop as found (split only while the running layout is set) is refuted")
+    return 2
 
 
 def _grid(rng, quick):
@@ -241,6 +250,10 @@ def inputs(ctx):
             for lang in (None, d2):
                 ins.append({"id": "m%d" % n, "k": "vttpos", "groups": groups, "cap": cap, "lang": lang})
                 n += 1
+    # every behaviour of the grouping model (MC_Groups), replayed into the real writer
+    conc = {"none": None, "a": d1, "b": d2, "c": d3}
+    for k, c in enumerate(ctx._groups):
+        ins.append({"id": "mc%d" % k, "k": "vttpos", "groups": [conc[x] for x in c["nodes"]], "cap": conc[c["cap"]], "lang": None})
     for k, st in enumerate(["line:5% align:left", "position:10% size:35%", "align:end", "line:0 position:50%,center",
                             "vertical:rl", "region:fred", "align:left\tposition:50%", "align:left  position:50%",
                             "line:5%\t\talign:left   size:40%", "position:10%,line-left align:center size:35%"]):
